@@ -1,5 +1,8 @@
 SIM = {**KIT, "verifx/sim": "harness/sim"}
-SIM_ACCESS = {"protocol/synchronizer/zz_verif_access.go": "harness/access/synchronizer/zz_verif_access.go"}
+SIM_ACCESS = {"protocol/synchronizer/zz_verif_access.go": "harness/access/synchronizer/zz_verif_access.go",
+              "server/zz_verif_access.go": "harness/access/server/zz_verif_access.go",
+              "protocol/consensus/zz_verif_access.go": "harness/access/consensus/zz_verif_access.go",
+              "protocol/rules/zz_verif_access.go": "harness/access/rules/zz_verif_access.go"}
 
 CHECKS["C01"] = dict(
     engine="E1",
